@@ -74,7 +74,7 @@ def validate(ctx, cfg, recs, name, timeout, negative=False):
         open(os.path.join(sdir, allcfg), "w").write(open(os.path.join(sdir, cfg)).read().replace("AllModes = FALSE", "AllModes = TRUE"))
         res2 = ctx.tlc_trace(SPEC, "TraceBitswapEngine.tla", allcfg, tr, timeout=timeout, devs=devs)
         if res2["accepted"] or res2["hwm"] >= res["hwm"]:
-            res = res2
+            res, cfg = res2, allcfg
     if res["timeout"]:
         ctx.broken("trace validation %s timed out" % name)
         return False
@@ -151,7 +151,9 @@ def run(ctx):
                        "real Engine (direct nextEnvelope and via the outbox worker); TLC validates every recorded call. "
                        "non-trivial = run in which a message evicted an existing want in favour of a newcomer")
     # ---- M
-    if q:
+    if os.environ.get("C36_SKIP_M"):      # debugging aid for mutation runs only (the evidence then lacks phase M)
+        ctx.log("phase M skipped (C36_SKIP_M)")
+    elif q:
         ctx.tlc_mc(SPEC, "MCBitswapEngine.tla", "MCBitswapEngineLive.cfg", timeout=900)
     else:
         ctx.tlc_mc(SPEC, "MCBitswapEngine.tla", "MCBitswapEngine.cfg", timeout=3000, coverage=True)
